@@ -731,9 +731,12 @@ func (r *run40) op(op string) bool {
 		if !ok {
 			return false
 		}
-		if x := r.inflight[q.owner]; q.owner >= 0 && x != nil && x != q && !r.confirmed[q.owner] {
-			// on an unconfirmed owner the outcome would depend on the order in which the
-			// waiting calls are woken (the stale OPEN is re-executed, RFC 7530 16.18.5)
+		if x := r.inflight[q.owner]; q.owner >= 0 && x != nil && x != q &&
+			(!r.confirmed[q.owner] || r.consumed[[2]int{q.owner, int(q.seq)}] != q) {
+			// the outcome would depend on the order in which the waiting calls are woken:
+			// on an unconfirmed owner a stale OPEN is re-executed (RFC 7530 16.18.5), and a
+			// request that was refused before could now be executed. A client does not
+			// have several different requests of one owner outstanding.
 			return false
 		}
 		r.start(q)
